@@ -368,16 +368,44 @@ class Item:
         return hashlib.sha256(self.text.encode()).hexdigest()[:16]
 
     def lines(self):
-        """[(repo_line_no, text)] with doc comments and dropped attributes removed
-        (line numbers preserved for the survivors)."""
+        """[(repo_line_no, text)] with doc comments, dropped attributes and `#[cfg(test)]`
+        elements removed (line numbers preserved for the survivors)."""
         out = []
-        for k, ln in enumerate(self.text.split("\n")):
+        raw = self.text.split("\n")
+        skip_until = -1
+        k = 0
+        while k < len(raw):
+            ln = raw[k]
             s = ln.strip()
+            if k <= skip_until:
+                k += 1
+                continue
+            if s == "#[cfg(test)]":
+                # drop the attribute and the element it guards: a `{ .. }` block / item
+                # (through its matching brace) or a single field / statement line
+                j = k + 1
+                while j < len(raw) and raw[j].strip() == "":
+                    j += 1
+                if j < len(raw):
+                    depth, seen, m = 0, False, j
+                    while m < len(raw):
+                        code = raw[m].split("//")[0]
+                        depth += code.count("{") - code.count("}")
+                        seen = seen or "{" in code
+                        if not seen or depth <= 0:
+                            break
+                        m += 1
+                    skip_until = m
+                k += 1
+                continue
             if s.startswith("///") or s.startswith("//!"):
+                k += 1
                 continue
             if ATTR_DROP.match(ln):
+                k += 1
                 continue
             out.append((self.line0 + k, ln))
+            k += 1
         return out
 
     def skeleton(self):
